@@ -331,7 +331,7 @@ def t_late_await(rng, k=None):
     binaries = rng.random() < 0.4
     src = "echo = @#{ " + ", ".join("!#(@'int) =c%d, %d c%d" % (j, j + 1, j) for j in range(rounds)) + ", Ok },\n"
     src += ", ".join("q%d = @#{ %s }" % (i, ("0x%02x" % (i + 1)) if binaries else str(i + 10)) for i in range(k)) + ",\n"
-    # the round-trips are done by a helper process (a top-level `&.` is not receivable: finding F15)
+    # the round-trips are done by a helper process (a top-level `&.` is not receivable: finding F70)
     src += "d = @#{ " + ", ".join("&. echo, !#'int" for _ in range(rounds)) + " },\n!d,\n"
     src += "[" + ", ".join("!q%d" % i for i in range(k)) + "]"
     return dict(name="late_await", src=src, confluent=True, size=dict(k=k, rounds=rounds, bin=int(binaries)), nprocs=k + 3)
@@ -424,7 +424,7 @@ def t_failing_member(rng, site=None, when=None):
 def t_await_then_spawn(rng):
     """Await a process that is still working when the await is issued, then spawn again and await
     that too (confluent). A stale empty UpdateAwaitResults reaching the awaiter while it waits for
-    its spawn notification is finding F16."""
+    its spawn notification is finding F71."""
     n = rng.randint(1, 3)
     src = "a = @#{ !#'int },\n5 a,\n!a =x0,\n"
     for i in range(1, n + 1):
@@ -441,8 +441,8 @@ def t_await_then_spawn(rng):
     return dict(name="await_then_spawn", src=src, confluent=True, size=dict(n=n), nprocs=n + 2)
 
 
-def f16_shape(s):
-    """NARROW match for F16: no internal error, but some process failed with StackUnderflow (the
+def f71_shape(s):
+    """NARROW match for F71: no internal error, but some process failed with StackUnderflow (the
     re-executed Spawn/…), which no generated program can produce by itself."""
     return s.ok and not s.panics and not s.errs and "(err StackUnderflow" in s.line
 
@@ -708,3 +708,66 @@ def shrunk_replay(runner, tp, line, kind, detail, s, count, kinds_of):
         "observed": (final.line if final.ok else s.line)[:3000],
         "how_to_replay": "echo '<replay_case>' | .cache/cargo-target/debug/qv_sim --trace",
     }
+
+
+# ----------------------------------------------------------------------------- trace parsing
+
+def parse_trace(lines):
+    """Parse the multi-line output of `qv_sim --trace` for ONE case into a dict:
+    {"sim": [...], "lines": [(k, source, [log items])], "initial_state": <state sexp>,
+     "actions": [{"n", "prelude", "action", "now", "exec", "items": [...], "outcome", "state"}], "summary": Summary}.
+    Top-level forms start in column 0; continuation lines are indented."""
+    chunks, cur = [], []
+    for l in lines:
+        if l.startswith("(") and cur:
+            chunks.append("\n".join(cur))
+            cur = []
+        cur.append(l)
+    if cur:
+        chunks.append("\n".join(cur))
+    out = {"sim": None, "lines": [], "initial_state": None, "actions": [], "summary": None, "programs": []}
+    pending_line = None
+    for ch in chunks:
+        if ch.startswith("(result"):
+            out["summary"] = Summary(ch)
+            continue
+        head = ch.split(None, 1)[0]
+        if head == "(line":
+            # `(line k "src")` followed by indented log items
+            first, *rest = ch.split("\n")
+            f = sexpr.parse(first)
+            pending_line = (int(f[1]), f[2], [sexpr.parse(r) for r in rest if r.strip()])
+            out["lines"].append(pending_line)
+            continue
+        x = sexpr.parse(ch)
+        if x[0] == "sim":
+            out["sim"] = x
+        elif x[0] == "program":
+            out["programs"].append(x)
+        elif x[0] == "state":
+            if out["actions"]:
+                out["actions"][-1]["state"] = x
+            else:
+                out["initial_state"] = x
+        elif x[0] == "action":
+            body = x[2:]
+            prelude = body and body[0] == ["prelude"]
+            if prelude:
+                body = body[1:]
+            a = {"n": int(x[1]), "prelude": bool(prelude), "action": body[0], "now": None, "exec": None,
+                 "instrs": None, "items": [], "outcome": None, "state": None}
+            for it in body[1:]:
+                if not isinstance(it, list) or not it:
+                    continue
+                if it[0] == "now":
+                    a["now"] = int(it[1])
+                elif it[0] == "exec":
+                    a["exec"] = it[1:]
+                elif it[0] == "instrs":
+                    a["instrs"] = it[1:]
+                elif it[0] == "outcome":
+                    a["outcome"] = it[1:]
+                else:
+                    a["items"].append(it)
+            out["actions"].append(a)
+    return out
